@@ -226,8 +226,9 @@ func (p *prop) Generate(rng *core.Rand, tier string, emit func(string)) {
 	case "search":
 		n = 40000
 	}
-	// a bounded pool of configurations per run keeps provisioning cheap without narrowing
-	// what a configuration can be (the pool itself is random)
+	// core.NewRand(seed) and core.NewRand(seed+1) are the same splitmix stream shifted by one
+	// draw; forking first makes different seeds statistically independent.
+	rng = rng.Fork()
 	for c := 0; c < n; c++ {
 		k := genCase(rng)
 		emit(k.line())
